@@ -31,7 +31,7 @@ def run(M, rep, tier, only=None):
     cctx = Ctx(M)
     R1 = rep.rule("C10.R1", "no storage write precedes a type refusal of new property values", floor=2,
                   technique="event order on all abstract paths ending in TypeError/ValueError")
-    R2 = rep.rule("C10.R2", "new values are checked against the property's type and element by element", floor=1,
+    R2 = rep.rule("C10.R2", "new values are checked against the property's type and element by element", floor=40,
                   technique="guards present on every accepting path")
     R3 = rep.rule("C10.R3", "value type inference table (bool < Integral < Real, str, else refused)", floor=6,
                   technique="decision-table extraction evaluated on representatives of the type lattice")
@@ -100,6 +100,85 @@ def run(M, rep, tier, only=None):
                     break
         rep.check(R2, "Property._check_new_value_types", bad is None and nacc > 0, bad[1] if bad else "no accepting list path",
                   site=f.file + ":%d" % f.node.lineno, detail=describe_path(bad[0]) if bad else None)
+
+    # ---- R2b: the type check as a decision table (two unrolled elements), evaluated on value lists
+    f = ctx.member("Property", "_check_new_value_types")
+    if f is not None:
+        import numpy as _np_absent  # noqa: F401  (only to make clear nothing of numpy is needed here)
+    if f is not None:
+        c2 = Ctx(M, coarse=False, unroll=2)
+        c2.cfg.compose = False
+        try:
+            paths2 = c2.paths(f, "Property", max_paths=40000)
+        except Budget:
+            raise AnalysisError("C10: too many abstract paths in _check_new_value_types (unroll 2)")
+        DT = {"Bool": ("ext", "numpy.bool_"), "Int64": ("ext", "numpy.int64"), "Double": ("ext", "numpy.double"), "String": ("ext", "numpy.str_")}
+
+        def pytype(v):
+            if isinstance(v, bool):
+                return "Bool"
+            if isinstance(v, int):
+                return "Int64"
+            if isinstance(v, float):
+                return "Double"
+            if isinstance(v, str):
+                return "String"
+            return None
+        cases = []
+        for stored in ("Bool", "Int64", "Double", "String"):
+            for data in ([1, 2], [1, True], [True, 1], [1.5, 2], [2, 1.5], [1.5, True], [True, 1.5], ["a", "b"], ["a", 1], [1, "a"],
+                         [1.5, 2.5], [True, False], [7], [7.5], [True], ["x"]):
+                cases.append((stored, data))
+        for stored, data in cases:
+            types = [pytype(x) for x in data]
+            want_ok = all(t == stored for t in types)
+            loops = sorted({a[1] for p in paths2 for a, v in p.decisions if a[0] == "iter"}, key=str)
+
+            def leaf(t, data=data, stored=stored):
+                if t == ("param", "data"):
+                    return data
+                if t[0] == "lres" and t[1] == "dtype":
+                    return DT[stored]
+                if t[0] == "ext":
+                    return t
+                if t[0] == "elem" and t[1] == ("param", "data"):
+                    return data[t[2]] if t[2] < len(data) else NOTHING
+                if t[0] == "hasattr":
+                    return False
+                return NOTHING
+
+            def atomfn(a, data=data):
+                if a[0] == "iter":
+                    return a[2] < len(data)
+                if a[0] == "truthy" and a[1][0] == "hasattr":
+                    return False
+                return NOTHING
+            te = TermEval(leaf, atomfn=atomfn)
+            hit = []
+            for p in paths2:
+                ok = True
+                for a, v in p.decisions:
+                    try:
+                        r = te.atom(a)
+                    except Unknown as e:
+                        raise AnalysisError("C10.R2: the value type check depends on an unmodelled condition %s (%s)" % (show(a)[:140], e))
+                    except (TypeError, IndexError, AttributeError):
+                        ok = False
+                        break
+                    if r != v:
+                        ok = False
+                        break
+                if ok:
+                    hit.append(p)
+            key = "values %r into a %s property" % (data, stored)
+            if len(hit) != 1:
+                rep.bad(R2, key, "%d rows of the decision table apply" % len(hit), site=f.file)
+                continue
+            p = hit[0]
+            got_ok = p.terminal[0] == "return"
+            rep.check(R2, key, got_ok == want_ok, "%s are %s; the statement requires them to be %s (one data type per property, mixed lists refused)" % (
+                key, "accepted" if got_ok else "refused with %s" % p.terminal[1].cls, "accepted" if want_ok else "refused"),
+                site=f.file + ":%d" % f.node.lineno, detail=describe_path(p) if got_ok != want_ok else None)
 
     # ---------------------------------------------------------------- R3
     dt = M.classes.get("DataType")
@@ -284,6 +363,17 @@ def run(M, rep, tier, only=None):
                     sawv = True
             if not sawv:
                 bad = (paths[0], "section[key] never reads the values of a property")
+            # a key that names a property yields the property's values -- also when a subsection has the same name
+            for p in paths:
+                if not p.normal:
+                    continue
+                inprops = [v for a, v in p.decisions if a[0] == "truthy" and a[1][0] == "rd" and a[1][1] == "child" and a[1][2] == PROPS
+                           and a[1][3] == ("param", "key")]
+                if inprops and inprops[0] is True:
+                    rv = p.terminal[1].t
+                    if any(x == SECS for x in subterms(rv)) and not any(x == PROPS for x in subterms(rv)):
+                        bad = (p, "for a key that names a property, section[key] returns the subsection of that name: lookup and "
+                               "assignment/deletion/len disagree")
         elif name == "__setitem__":
             sawc = sawa = False
             for p in paths:
